@@ -62,6 +62,8 @@ var apiFiles = []treeFile{
 	{Name: "nested-use", Src: "@use(\"~nested\")@insert(\"content\")a layout that uses a layout@end"},
 	{Name: "dotcase", Src: "dot:{{ u.name }}|{{ u.tags }}"},
 	{Name: "poly", Src: "poly:{{ v.len() }}|{{ v }}|@if(v){{ v.len() }}@end"},
+	// one template, rendered with arrays of different lengths: the loop object of every pass belongs to this render
+	{Name: "lastof", Src: "last:@each(x in xs){{ loop.iter }}{{ x }}{{ loop.last ? \".\" : \",\" }}{{ loop.first ? \"^\" : \"\" }}@end|@for(i = 0; i < xs.len(); i++){{ i }}@end"},
 }
 
 // two different struct types with one name (function-local types): what a render sees of one must not depend on
@@ -200,6 +202,9 @@ var fixedSigs = map[apiOp]string{
 	{"String", "bare"}:           "OUT <h></h><b></b><p>100% %d %s %%</p>",
 	{"String", "static"}:         "OUT <p>Bo/3</p><i>Bo/3</i>",
 	{"String", "polyS"}:          "OUT poly:3|abc|3",
+	{"String", "lastA"}:          "OUT last:1a.^|0",
+	{"String", "lastB"}:          "OUT last:1a,^2b.|01",
+	{"String", "lastC"}:          "OUT last:1a,^2b,3c.|012",
 	{"String", "polyA"}:          "OUT poly:2|x, y|2",
 	{"String", "polyI"}:          "OUT poly:4|1234|4",
 	{"Response", "polyA"}:        "OK BODY poly:2|x, y|2",
@@ -257,6 +262,12 @@ func (e *apiEnv) run(o apiOp) (sig string, body string, ok bool) {
 		page, data["v"] = "poly", []string{"x", "y"}
 	case "polyI":
 		page, data["v"] = "poly", 1234
+	case "lastA":
+		page, data["xs"] = "lastof", []string{"a"}
+	case "lastB":
+		page, data["xs"] = "lastof", []string{"a", "b"}
+	case "lastC":
+		page, data["xs"] = "lastof", []any{"a", "b", "c"}
 	case "dotS": // a struct with exported fields, reached through the lower-cased first letter
 		page, data["u"] = "dotcase", apiRec{Name: "struct", Tags: []string{"s"}}
 	case "dotM": // a map with exactly these keys
@@ -329,6 +340,13 @@ func (e *apiEnv) run(o apiOp) (sig string, body string, ok bool) {
 	}
 	if o.Page == "row1" || o.Page == "row2" {
 		delete(data, "r")
+	}
+	if xs, has := data["xs"]; has {
+		want := map[string]any{"lastA": []string{"a"}, "lastB": []string{"a", "b"}, "lastC": []any{"a", "b", "c"}}[o.Page]
+		if !reflect.DeepEqual(xs, want) {
+			sig += " DATA-MODIFIED"
+		}
+		delete(data, "xs")
 	}
 	delete(data, "v")
 	delete(data, "u")
@@ -671,6 +689,7 @@ func cmdRace(args []string) int {
 	w := bufio.NewWriter(f)
 	defer w.Flush()
 	allOps := []apiOp{{"String", "ok"}, {"String", "ok2"}, {"String", "ok2"}, {"String", "bare"}, {"String", "static"}, {"String", "polyS"}, {"String", "polyA"}, {"String", "polyI"},
+		{"String", "lastA"}, {"String", "lastC"},
 		{"String", "bad"}, {"String", "missing"}, {"Response", "ok"}, {"Response", "bad"},
 		{"Response", "missing"}, {"EvalString", "ok"}, {"EvalString", "bad"}, {"EvalFile", "ok"}}
 	cfgs := []apiCfg{{"t", ".tw", "", false}, {"t", ".tw", "err", false}, {"t", ".tw", "", true}, {"t", ".tw", "err", true}}
